@@ -266,6 +266,83 @@ class FullWorld:
         self.pump_mailbox()
         self.snapshot()
 
+    # ---- fair completion --------------------------------------------------------------------------------------------------
+    def run_out(self, limit=600):
+        """No new faults, no new application calls: every frame held back is delivered, every TCP attempt completes,
+        every unit in flight arrives, every queued eventual call runs, every loss is noticed - until nothing moves.
+        Returns True when the real system came to rest."""
+        for _ in range(limit):
+            moved = False
+            for n in ("L", "F"):
+                if self.held[n]:
+                    if not self._deliver_held(n, lambda fr: fr["phase"] == "version"):
+                        nums = sorted(int(fr["phase"].split("-")[1]) for _, fr in self.held[n])
+                        self._deliver_held(n, lambda fr: fr["phase"] == "dilate-%d" % nums[0])
+                    moved = True
+                    break
+            if not moved:
+                self._new_attempts()
+                pending = reactor.pending_attempts()
+                for idx, att in enumerate(self.attempt_seen, start=1):
+                    if idx not in self.links:
+                        if att in pending:
+                            self.links[idx] = reactor.complete(att)
+                            moved = True
+                            break
+                        self.links[idx] = None
+            if not moved:
+                for n in ("L", "F"):
+                    if self._run_eq_call(n, "accept") or self._run_eq_call(n, "lost"):
+                        while self._run_eq_call(n, "lost"):
+                            pass
+                        moved = True
+                        break
+            if not moved:
+                for i, link in sorted(self.links.items()):
+                    if link is None:
+                        continue
+                    for e in (0, 1):
+                        if link.can_deliver(e):
+                            self.deliver_unit(link, e)
+                            moved = True
+                            break
+                        if link.ends[e].disconnecting and link.alive[e] and not link.cut:
+                            link.finish_close(e)
+                            moved = True
+                            break
+                        if link.can_observe_loss(e):
+                            link.observe_loss(e)
+                            moved = True
+                            break
+                    if moved:
+                        break
+            self.run_auto_timers()
+            self._new_attempts()
+            self.pump_mailbox()
+            if not moved:
+                self.snapshot()
+                return True
+        self.snapshot()
+        return False
+
+    def network_cut_all_current(self):
+        """the statement's proviso, on the real objects: there are connections belonging to the current Connector of both
+        sides and the network cut every one of them (then nobody retries, by design)"""
+        cur = []
+        for i, link in self.links.items():
+            if link is None:
+                continue
+            ok = True
+            for e in (0, 1):
+                p = getattr(link.ends[e].protocol, "_wrappedProtocol", link.ends[e].protocol)
+                c = getattr(p, "_connector", None)
+                m = getattr(c, "_manager", None)
+                if c is None or m is None or getattr(m, "_connector", None) is not c:
+                    ok = False
+            if ok:
+                cur.append(link)
+        return bool(cur) and all(l.cut for l in cur)
+
     # ---- observation ------------------------------------------------------------------------------------------------------
     def selected_links(self, n):
         out = []
@@ -404,15 +481,30 @@ def replay_behaviour(tid, states):
                     d.append("%s.closed: spec=%s real=%s" % (n, ss[n]["closed"], rs[n]["closed"]))
             if d:
                 drift = {"step": i, "action": list(la), "diff": d[:5]}
-    # let everything that can still happen by itself happen (no new faults), then look at the final situation
+    # the judgement by the behaviour's own final state first ...
+    at_end = w.state()
+    # ... then let everything that can still happen by itself happen (no new faults, no new application calls) and look
+    # at where the real system comes to rest: an oracle that does not depend on the model's bounds or on the replay
+    # having kept in step
+    try:
+        rested = w.run_out()
+    except Exception as e:
+        rested = False
+        w.internal.append("run_out: %r" % (e,))
     final = w.state()
+    dilated = all(n in w.api for n in ("L", "F")) and not w.network_cut_all_current()
     internal = w.finish()
     benign = [x for x in internal if any(b in x for b in BENIGN)]
     fin = states[-1]
     rec = {"tid": tid, "snaps": w.snaps, "final": final, "internal": [x for x in internal if x not in benign], "benign": len(benign),
            "stopCalled": {n: n in w.stop_called for n in ("L", "F")},
+           "atEnd": at_end, "rested": bool(rested),
            "specStopped": {n: bool(drift is None and stop_due(fin, n)) for n in ("L", "F")},
-           "convergenceDue": bool(drift is None and convergence_due(fin))}
+           "convergenceDue": bool(drift is None and convergence_due(fin)),
+           # at rest after a fair completion: a requested close must have completed; two dilating sides nobody stopped
+           # must be connected to each other
+           "restStopDue": {n: bool(rested and n in w.stop_called) for n in ("L", "F")},
+           "restConvergenceDue": bool(rested and dilated and not w.stop_called)}
     return w, rec, drift
 
 
@@ -514,7 +606,10 @@ def run(prop, tier):
             records.append({"tid": tid, "snaps": [], "final": {"L": {"mgr": "-", "ctr": "-", "sel": 0, "role": "-", "closed": op["closed"]},
                                                                  "F": {"mgr": "-", "ctr": "-", "sel": 0, "role": "-", "closed": True}},
                             "internal": [], "benign": 0, "stopCalled": {"L": True, "F": False}, "origin": "old-peer",
-                            "specStopped": {"L": True, "F": False}, "convergenceDue": False,
+                            "specStopped": {"L": True, "F": False}, "convergenceDue": False, "rested": True,
+                            "atEnd": {"L": {"mgr": "-", "ctr": "-", "sel": 0, "role": "-", "closed": op["closed"]},
+                                      "F": {"mgr": "-", "ctr": "-", "sel": 0, "role": "-", "closed": True}},
+                            "restStopDue": {"L": False, "F": False}, "restConvergenceDue": False,
                             "oldpeer": {"ok": op["ok"], "closed": op["closed"]}})
             meta[tid] = {"schedule": [["old-peer-case"]], "results": op["results"]}
         path = wd.file("obs.ndjson")
@@ -544,6 +639,11 @@ def run(prop, tier):
     cov.update(states=states, transitions=transitions, traces_validated_against_impl=len(records), evaluations=len(records),
                distinct_nontrivial=len(distinct), failing_runs=failing, replay_drift_count=ndrift,
                benign_internal_errors_seen=sum(rec["benign"] for rec in records),
+               exercised={"convergence_due_by_spec": sum(1 for r_ in records if r_["convergenceDue"]),
+                          "convergence_due_at_rest": sum(1 for r_ in records if r_["restConvergenceDue"]),
+                          "stop_due_by_spec": sum(1 for r_ in records for n in ("L", "F") if r_["specStopped"][n]),
+                          "stop_due_at_rest": sum(1 for r_ in records for n in ("L", "F") if r_["restStopDue"][n]),
+                          "came_to_rest": sum(1 for r_ in records if r_["rested"])},
                rule="a run = one TLC behaviour of DilationL3.tla executed on two real dilating wormholes (mailbox twin, simulated TCP, "
                     "Noise stand-in); distinct = distinct action sequences; all involve several candidate links, cuts or stops")
     cov["samples"] = [{"schedule": meta[rec["tid"]]["schedule"][:50], "final": rec["final"]} for rec in records[:2]]
